@@ -12,6 +12,7 @@ import (
 
 	"github.com/youchainhq/go-youchain/common"
 	"github.com/youchainhq/go-youchain/crypto"
+	"github.com/youchainhq/go-youchain/trie"
 	"github.com/youchainhq/go-youchain/you/downloader"
 	"github.com/youchainhq/go-youchain/youdb"
 	"verif/harness/vf"
@@ -159,6 +160,28 @@ func (r *runner) cAssign(peer, n int) {
 	r.after()
 }
 
+// softCorrupt returns the blob with a byte flipped where it stays acceptable to
+// everything but the hash: the tail of a leaf value, or anywhere in a raw entry
+// (code / delegations); nil if this entry is not of that kind.
+func softCorrupt(src *Src, h common.Hash, blob []byte) []byte {
+	if len(blob) == 0 {
+		return nil
+	}
+	b := append([]byte{}, blob...)
+	b[len(b)-1] ^= 0x01
+	if src.raws[h] && !src.nodes[h] {
+		return b
+	}
+	n, err := trie.VerifC19Decode(h[:], blob)
+	if err != nil || n == nil || !n.Short || len(n.Children) != 1 || n.Children[0].Kind != 1 {
+		return nil
+	}
+	if m, err := trie.VerifC19Decode(h[:], b); err != nil || m == nil {
+		return nil
+	}
+	return b
+}
+
 func (r *runner) cPack(peer int, how string, pick int) {
 	a := r.cs.active[peer]
 	var blobs [][]byte
@@ -177,6 +200,7 @@ func (r *runner) cPack(peer int, how string, pick int) {
 		return
 	}
 	blobs = [][]byte{}
+	flipped := false
 	for i, h := range a.items {
 		b := r.srcBlob(h)
 		if b == nil {
@@ -195,6 +219,20 @@ func (r *runner) cPack(peer int, how string, pick int) {
 			} else {
 				blobs = append(blobs, b)
 			}
+		case "leafflip": // a full-length reply, one leaf value / raw entry altered, still decodable
+			if c := softCorrupt(r.src, h, b); c != nil && !flipped {
+				blobs = append(blobs, c)
+				flipped = true
+			} else {
+				blobs = append(blobs, b)
+			}
+		case "substitute": // a full-length reply, one blob replaced by another valid node of the source
+			if i == idx(pick, len(a.items)) && len(r.src.all) > 0 {
+				if o := r.srcBlob(r.src.all[idx(pick/3, len(r.src.all))]); o != nil {
+					b = o
+				}
+			}
+			blobs = append(blobs, b)
 		case "twice":
 			blobs = append(blobs, b, b)
 		default:
@@ -411,7 +449,7 @@ func genCallerScript(r *vf.Rng) []SOp {
 		case x < 36:
 			sc = append(sc, SOp{Op: "assign", Peer: peer, N: int(r.Pick([]uint64{0, 1, 2, 3, 3, 8, 16, 384}))})
 			if r.Chance(60) { // the assigned peer answers, not always well
-				how := []string{"honest", "honest", "partial", "empty", "corrupt", "extra", "twice", "reversed"}[r.Intn(8)]
+				how := []string{"honest", "honest", "partial", "empty", "corrupt", "extra", "twice", "reversed", "leafflip", "leafflip", "leafflip", "substitute"}[r.Intn(12)]
 				sc = append(sc, SOp{Op: "pack", Peer: peer, How: how, Pick: 5 * r.Intn(1<<12)})
 				if r.Chance(70) {
 					sc = append(sc, SOp{Op: "next"})
@@ -430,8 +468,12 @@ func genCallerScript(r *vf.Rng) []SOp {
 				how = "corrupt"
 			case y < 86:
 				how = "extra"
-			case y < 93:
+			case y < 90:
 				how = "twice"
+			case y < 94:
+				how = "leafflip"
+			case y < 97:
+				how = "substitute"
 			default:
 				how = "reversed"
 			}
